@@ -150,6 +150,9 @@ def rename(rng, desc, special=0.12):
     det = desc.get("_build", {}).get("detour")
     if det:                                       # the generator's "added late" leaf and its decoy host
         det["x"], det["decoy_parent"] = mp.get(det["x"], det["x"]), mp.get(det["decoy_parent"], det["decoy_parent"])
+    rt = desc.get("_build", {}).get("retouch")
+    if rt:                                        # the component that is given a decoy phase configuration and replaced by itself
+        rt["x"] = mp.get(rt["x"], rt["x"])
     br = desc.get("_build", {}).get("bridge")
     if br:                                        # the link that is first built through a temporary stage
         br["child"] = mp.get(br["child"], br["child"])
@@ -213,9 +216,26 @@ def gen_config(rng, desc, malformed_cfg=0.06):
     return cfg
 
 
+def gen_big(rng):
+    """losses from milliwatts up to beyond 1e8 W, so that every branch of the label formatter (plain, m/u/n, k, M, %.2e) is met"""
+    comps = [{"name": "S1", "kind": "source", "args": {"vo": 1.0}, "parents": []}]
+    vmax = 0.0
+    for k in range(rng.randint(1, 4)):
+        i = float(rng.choice([1e-3, 0.25, 10.0, 1e3, 3e4]))
+        r = float(rng.choice([1e-3, 0.37, 12.5, 999.0]))
+        vmax = max(vmax, r * i)
+        comps.append({"name": "RL%d" % k, "kind": "rloss", "args": {"rs": r}, "parents": ["S1"], "group": rng.choice(["", "G1"])})
+        comps.append({"name": "I%d" % k, "kind": "iload", "args": {"ii": i}, "parents": ["RL%d" % k]})
+    comps[0]["args"]["vo"] = float("%.3g" % (vmax * rng.choice([1.5, 4.0, 10.0]) + 1.0))
+    return {"name": "sys", "comps": comps, "phases": {}}
+
+
 def gen_case(rng, malformed=None):
-    desc = gen.gen_system(rng, max_nodes=rng.choice([6, 12, 24]), p_group=rng.choice([0.0, 0.3, 0.6, 0.9]),
-                          p_rail=0.1, phases=0.5, p_mux=0.4)
+    if malformed is None and rng.random() < 0.08:
+        desc = gen_big(rng)
+    else:
+        desc = gen.gen_system(rng, max_nodes=rng.choice([6, 12, 24]), p_group=rng.choice([0.0, 0.3, 0.6, 0.9]),
+                              p_rail=0.1, phases=0.5, p_mux=0.4)
     rename(rng, desc)
     if malformed is not None:
         bad_names(rng, desc, malformed)
@@ -251,6 +271,9 @@ def bad_names(rng, desc, cls):
     det = desc.get("_build", {}).get("detour")
     if det:
         det["x"], det["decoy_parent"] = new.get(det["x"], det["x"]), new.get(det["decoy_parent"], det["decoy_parent"])
+    rt = desc.get("_build", {}).get("retouch")
+    if rt:
+        rt["x"] = new.get(rt["x"], rt["x"])
     br = desc.get("_build", {}).get("bridge")
     if br:
         br["child"] = new.get(br["child"], br["child"])
@@ -397,6 +420,9 @@ def nodes_order(desc):
     comps = desc["comps"]
     if det:
         comps = [c for c in comps if c["name"] != det["x"]] + [c for c in comps if c["name"] == det["x"]]
+    rt = desc.get("_build", {}).get("retouch")
+    if rt:            # change_comp() re-inserts the name: it moves to the end of the registry
+        comps = [c for c in comps if c["name"] != rt["x"]] + [c for c in comps if c["name"] == rt["x"]]
     return comps
 
 
